@@ -123,6 +123,72 @@ def assignment_facts(node):
     return out
 
 
+def _split_children(body):
+    out, depth, cur = [], 0, ""
+    i = 0
+    while i < len(body):
+        ch = body[i]
+        if ch == "[":
+            depth += 1
+        elif ch == "]":
+            depth -= 1
+        if ch == ";" and depth == 0 and body[i:i + 2] == "; ":
+            out.append(cur)
+            cur = ""
+            i += 2
+            continue
+        cur += ch
+        i += 1
+    if cur:
+        out.append(cur)
+    return out
+
+
+def _parse_whole(term):
+    """'or[a; !b]' -> ('or', [('a', True), ('b', False)]) ; None for atoms"""
+    for name in ("or", "and"):
+        if term.startswith(name + "[") and term.endswith("]"):
+            kids = []
+            for c in _split_children(term[len(name) + 1:-1]):
+                kids.append((c[1:], False) if c.startswith("!") else (c, True))
+            return name, kids
+    return None
+
+
+def derive(facts):
+    """one-step-to-fixpoint unit propagation over compound facts: returns the derived (term, pol) pairs with
+    the compound fact they come from"""
+    known = set(facts)
+    derived = {}
+    changed = True
+    while changed:
+        changed = False
+        for t, p in list(known):
+            pw = _parse_whole(t)
+            if pw is None:
+                continue
+            name, kids = pw
+            # normalise to a disjunction that is TRUE: or/True -> kids ; and/False -> negated kids
+            if (name == "or" and p) or (name == "and" and not p):
+                lits = kids if name == "or" else [(k, not kp) for k, kp in kids]
+                open_ = [(k, kp) for k, kp in lits if (k, not kp) not in known]
+                if any((k, kp) in known for k, kp in lits):
+                    continue
+                if len(open_) == 1 and open_[0] not in known:
+                    known.add(open_[0])
+                    derived[open_[0]] = (t, p)
+                    changed = True
+            else:
+                # conjunction that is TRUE: and/True -> kids ; or/False -> negated kids
+                lits = kids if name == "and" else [(k, not kp) for k, kp in kids]
+                for lit in lits:
+                    if lit not in known:
+                        known.add(lit)
+                        derived[lit] = (t, p)
+                        changed = True
+    return derived
+
+
 def compute(cfg, assume=(), call_kills=None, expand=None, await_kills=False):
     """assume: iterable of guard texts taken to hold at function entry (e.g. a literal
     parameter value).  expand(expr, node) -> expr with single-definition locals substituted
@@ -198,8 +264,17 @@ def compute(cfg, assume=(), call_kills=None, expand=None, await_kills=False):
             keys = edge_keys[id(e)]
             if any((t, not p) in out for t, p in keys):
                 continue                       # contradicts what holds here: infeasible (for now)
+            cand = out | set(keys)
+            der = derive(cand) if any(k[0].startswith(("or[", "and[")) for k in cand) else {}
+            if any((t, not p) in cand or (t, not p) in der for t, p in der):
+                continue                       # unit propagation over compound facts yields a contradiction
+            for dk, parent in der.items():
+                if dk not in info and parent in info:
+                    pi = info[parent]
+                    info[dk] = FactInfo(dk[0], dk[1], pi.names, pi.chains, None, pi.origin)
+            cand = cand | {dk for dk in der if dk in info}
             feasible.add(id(e))
-            new = frozenset(out | set(keys))
+            new = frozenset(cand)
             old = IN.get(e.dst.id)
             if old is None:
                 IN[e.dst.id] = new
@@ -227,7 +302,16 @@ def compute(cfg, assume=(), call_kills=None, expand=None, await_kills=False):
                 keys = edge_keys[id(e)]
                 if any((t, not p) in out for t, p in keys):
                     continue
-                new = frozenset(out | set(keys))
+                cand = out | set(keys)
+                der = derive(cand) if any(k[0].startswith(("or[", "and[")) for k in cand) else {}
+                if any((t, not p) in cand or (t, not p) in der for t, p in der):
+                    continue
+                for dk, parent in der.items():
+                    if dk not in info and parent in info:
+                        pi = info[parent]
+                        info[dk] = FactInfo(dk[0], dk[1], pi.names, pi.chains, None, pi.origin)
+                cand = cand | {dk for dk in der if dk in info}
+                new = frozenset(cand)
                 old = IN.get(e.dst.id)
                 if id(e) not in feasible:
                     feasible.add(id(e))
